@@ -28,7 +28,7 @@ CONFIGS_THOROUGH = [
 ]
 
 
-def col_cfg(name, cls, spellings, n, mig="sticky", alias="prefer_new_sorted", invs="AlwaysSucceeds OwnValues ColumnsExact ExplicitWins PrintPop"):
+def col_cfg(name, cls, spellings, n, mig="sticky", alias="prefer_new_sorted", invs="AlwaysSucceeds OwnValues ColumnsExact ExplicitWins OrderFree PrintPop"):
     text = ('SPECIFICATION Spec\nCONSTANTS ClassName = "%s"\n Spellings = {%s}\n NumInst = %d\n MigrationRule = "%s"\n'
             ' AliasRule = "%s"\nINVARIANTS %s\nCHECK_DEADLOCK FALSE\n'
             % (cls, ", ".join('"%s"' % s for s in spellings), n, mig, alias, invs))
